@@ -558,3 +558,76 @@ def c11(tier, seed):
     run.finish(
         require_witnesses=["extra_unit_in_state_without_baseline_units", "extra_unit_in_new_county", "pair_nonparametric", "pair_gaussian", "pair_bootstrap"]
     )
+
+
+# ---------------------------------------------------------------------------------------------------------------
+# C10
+
+
+def _job_perturb(arg):
+    pack0, estimator, seed = arg
+    try:
+        # every other run keeps all outstanding units above 50% expected vote, where the bootstrap estimator's
+        # per-unit clip bounds depend on the unit's partial results
+        return ("ok", ledger.perturb_traces(pack0, estimator, seed, PIS, random.Random(seed), high_pev=(seed % 2 == 0)))
+    except Exception as e:  # noqa: BLE001
+        return ("exc", {"clause": "run_raised", "estimator": estimator, "exc": type(e).__name__, "msg": str(e)[:300], "tb": traceback.format_exc()[-1500:]})
+
+
+def _job_historical(arg):
+    from harness import historical
+
+    seed, estimator = arg
+    return historical.record(seed, estimator)
+
+
+def c10(tier, seed):
+    run = report.Run("C10", tier, seed)
+    run.assumptions += [
+        "the information-flow model (Interference.tla) abstracts each pipeline step to the set of units whose counts it reads; the paired real runs bind it: every table row outside the perturbed unit's own row and its groups must be bit-identical",
+        "the perturbed unit keeps its percent expected vote, baseline and features; only its counted votes change",
+        "historical clause: nonparametric and gaussian estimators (the historical client cannot run the bootstrap estimator on the margin estimand at all: KeyError 'results_normalized_margin', see DESIGN observations)",
+    ]
+    common.mc(run, "Interference", "MC_Interference_FALSE.cfg", timeout=600)
+    common.mc(run, "Interference", "MC_Interference_TRUE.cfg", timeout=600)
+    common.mc(run, "Interference", "MC_Interference_leak.cfg", expect_violation="NonInterference", name="leak demo (a fit that reads every unit's counts)")
+    rnd = random.Random(seed)
+    jobs = []
+    n_runs = 36 if tier == "quick" else 400
+    for n in range(n_runs):
+        policy = rnd.choice(["drop", "zero"])
+        off = rnd.random() < 0.3
+        levels = rnd.choice(ledger.LEVEL_LISTS)
+        pack0 = [ledger.random_scenario(rnd, rnd.randint(4, 10), policy, off, levels, p_weird=0.6) for _ in range(5)]
+        jobs.append((pack0, ESTIMATORS[n % 3], seed + n))
+    traces = []
+    for status, val in common.pool().map(_job_perturb, jobs, chunksize=1):
+        if status == "ok":
+            traces.extend(val)
+        else:
+            run.violation("run_raised", {k: val[k] for k in ("clause", "estimator", "exc")}, val)
+    for t in traces:
+        run.witness("perturbed_" + t["unit_kind"])
+        run.witness("pair_" + t["sc"]["estimator"])
+    hjobs = [(seed + k, ["nonparametric", "gaussian"][k % 2]) for k in range(4 if tier == "quick" else 24)]
+    for rec in common.pool().map(_job_historical, hjobs, chunksize=1):
+        traces.append(rec)
+        run.witness("historical_pair")
+
+    def on_reject(tr, clause, inv):
+        facts = {"clause": clause, "kind": tr["kind"], "invariant": inv}
+        if tr["kind"] == "pair":
+            facts.update(estimator=tr["sc"]["estimator"], unit_kind=tr["unit_kind"], policy=tr["sc"]["policy"])
+        else:
+            facts.update(estimator=tr["estimator"])
+        run.violation(clause, facts, {"trace": tr})
+
+    n_ok = tracecheck.validate("Trace_Interference", "Trace_Interference.cfg", traces, on_reject, run=run)
+    run.cov["traces_validated_against_impl"] += n_ok
+    pairs = [t for t in traces if t["kind"] == "pair"]
+    if pairs:
+        run.sample({"perturbed_unit": pairs[0]["sc"]["units"][pairs[0]["u"] - 1], "delta": pairs[0]["delta"]})
+    run.sample({"historical": [t for t in traces if t["kind"] == "historical"][:1]})
+    run.finish(
+        require_witnesses=["perturbed_part", "perturbed_blkRep", "perturbed_zeroNon", "perturbed_unexpRep", "pair_nonparametric", "pair_gaussian", "pair_bootstrap", "historical_pair"]
+    )
